@@ -256,6 +256,62 @@ def rule_task_purity(ck: Check, repo: Repo, cg: CallGraph, rid: str = "R6") -> N
         raise AnalysisError(f"C14-{rid} positive control failed: {got}")
 
 
+
+def rule_glob_patterns(ck: Check, repo: Repo, rid: str = "R7") -> None:
+    """A glob pattern built from a run-time path must escape that path: otherwise a root (or any directory on the way)
+    whose NAME contains `[`, `*` or `?` changes what is found - the result then depends on how the root is spelled /
+    where the project lives, not on its contents."""
+    r = ck.rule(rid, "glob patterns built from run-time paths escape them (glob.escape)")
+    from ..rules import resolve_deep
+    n = 0
+    for q, fn in sorted(repo.functions.items()):
+        for c in ast.walk(fn):
+            if not isinstance(c, ast.Call) or repo.enclosing_function(c) is not fn:
+                continue
+            f = ast.unparse(c.func)
+            if f not in ("glob.glob", "glob.iglob", "iglob", "glob"):
+                continue
+            if not c.args:
+                continue
+            n += 1
+            pat = resolve_deep(fn, c.args[0])
+            unescaped = []
+
+            def scan(e, escaped=False):
+                if isinstance(e, ast.Call) and ast.unparse(e.func) in ("glob.escape", "escape"):
+                    return
+                if isinstance(e, ast.Constant):
+                    return
+                if isinstance(e, (ast.Name, ast.Attribute)):
+                    unescaped.append(ast.unparse(e))
+                    return
+                if isinstance(e, ast.Call):
+                    fnm = ast.unparse(e.func)
+                    if fnm in ("str", "Path", "PurePath", "os.fspath", "os.path.join", "os.fsdecode") or fnm.endswith(".joinpath") \
+                            or fnm.endswith(".as_posix") or fnm.endswith(".format") or fnm.endswith(".join"):
+                        if isinstance(e.func, ast.Attribute) and not fnm.startswith(("os.", "glob.")):
+                            scan(e.func.value)
+                        for a in e.args:
+                            scan(a)
+                        for k in e.keywords:
+                            scan(k.value)
+                        return
+                    unescaped.append(ast.unparse(e)[:40])
+                    return
+                for ch in ast.iter_child_nodes(e):
+                    if isinstance(ch, ast.expr):
+                        scan(ch)
+
+            scan(pat)
+            r.instance(f"{q}:{ast.unparse(c)[:50]}", {"function": q, "pattern": ast.unparse(pat)[:100], "unescaped_run_time_parts": unescaped}, q)
+            if unescaped:
+                r.violation(q, f"glob pattern contains the unescaped run-time path {unescaped[0]}",
+                            f"`{ast.unparse(c)[:80]}` with pattern {ast.unparse(pat)[:80]}: when that path contains `[`, `]`, `*` or `?`"
+                            f" (a project in a directory called `proj[1]`) the pattern no longer names the directory and nothing"
+                            f" is found there", repo.loc(c))
+    r.floor(1, "glob call sites", got=n)
+
+
 def rule_toml_order(ck: Check, repo: Repo) -> None:
     from . import c04
     c04.rule_nesting_sort_only(ck, repo, "R3")
@@ -286,3 +342,4 @@ def run(ck: Check, repo: Repo) -> None:
     from . import c18
     c18.spdx_id_inputs(ck, repo, r4)
     rule_task_purity(ck, repo, cg)
+    rule_glob_patterns(ck, repo)
